@@ -29,12 +29,11 @@ def runProgram (impl : Bool) (st0 : St) (src : String) : String :=
 
 def mainC08 (args : List String) : IO Unit := do
   let src ← readAll (← IO.getStdin) ""
-  -- `equal`: S with the winders comparison of the unfixed parameters.scm (finding K08a);
-  -- `impl`: additionally reset/shift/with-handler as stdlib.scm implements them (finding K08b).
-  -- `mc`: only the stdlib.scm encoding (what the engine does once the winders comparison is fixed).
-  let impl := args.contains "impl" || args.contains "mc"
-  let st0 := if impl then { implInitState with events := [], eqMode := args.contains "impl" }
-             else { initState with events := [], eqMode := args.contains "equal" }
+  -- `impl` / `impl-guarded`: NOT the specification but the faithful variant (parameters.scm + stdlib.scm
+  -- transcribed, see Spec.implPreludeSrc), used to attribute disagreements to open findings.
+  let guarded := args.contains "impl-guarded"
+  let impl := args.contains "impl" || guarded
+  let st0 := if impl then { implInitState guarded with events := [] } else { initState with events := [] }
   for prog in src.splitOn "\n;;;===\n" do
     if prog.trimAscii.toString ≠ "" then
       IO.println (runProgram impl st0 prog)
